@@ -12,24 +12,42 @@ from decimal import Decimal, getcontext
 
 PID = "C19"
 LEVEL = "exploration"
-RULE = ("angles: dyadic multiples of pi (n*pi/2^d, d up to 40), +-0, +-tiny (1e-20..1e-9), 2*pi*k +- eps, huge (1e6..1e15), "
+RULE = ("angles: dyadic multiples of pi (n*pi/2^d, d up to 40), +-0, +-tiny (1e-20..1e-9), 2*pi*k +- eps, huge (up to the largest double), "
         "uniform and log-uniform random, each with tolerances 1e-2..1e-9 (direct calls) or the SDK default tolerance "
         "(q.rot_X/Y/Z(angle=..) through a connection, instructions read from the flushed subroutine). Oracle: every step "
-        "has integer 0<=n<=255 and 0<=d<=255, at most 64 steps, and |sum n*pi/2^d - angle| mod 2pi <= tol + ulp(angle) "
-        "+ 1e-14 (the input float itself is only known to one ulp)."
+        "has integer 0<=n<=255 and 0<=d<=255, at most 64 steps, and |sum n*pi/2^d - angle| mod 2pi <= tol + 1e-14 "
+        "(the float is taken as the exact angle; 420-digit arithmetic)."
         ' The SDK route also passes explicit (n, d) together with angle (documented as ignored), including angles of exactly zero. '
         ' Angles also as numpy float16 / float32 scalars. '
         "Non-trivial = angle not within tol of 0 mod 2pi "
         "(at least one step expected); distinct = distinct (angle, tol, route).")
 ASSUMPTIONS = [
-    "angle error is measured with 60-digit decimal arithmetic; one ulp of the input angle plus 1e-14 is allowed for float reduction of the input",
+    "angle error is measured with 420-digit decimal arithmetic against the float taken as the exact angle; 1e-14 is allowed for the arithmetic of the decomposition itself",
     "known finding angle-spec:tolerance-below-2e-7-unreachable: steps with exponent >= 32 are dropped by design, so tolerances below 255*pi/2^32 ~ 1.87e-7 are honoured only up to that bound",
 ]
 SHARDS = {"quick": 1, "thorough": 16}
 MIN_COUNTERS = {"postcondition_evaluations": 1000, "sdk_route_rotations": 20}
 
-getcontext().prec = 60
-PI = Decimal("3.14159265358979323846264338327950288419716939937510582097494459230781640628620899")
+getcontext().prec = 420       # the largest finite double has 309 digits before the point: its remainder modulo 2 pi needs that many and some
+
+
+def _pi():
+    """pi to the context's precision (the series of the decimal module's documentation)."""
+    getcontext().prec += 4
+    three = Decimal(3)
+    lasts, t, s_, n, na, d, da = 0, three, 3, 1, 0, 0, 24
+    while s_ != lasts:
+        lasts = s_
+        n, na = n + na, na + 8
+        d, da = d + da, da + 32
+        t = (t * n) / d
+        s_ += t
+    getcontext().prec -= 4
+    return +s_
+
+
+PI = _pi()
+assert str(PI).startswith("3.14159265358979323846264338327950288419716939937510582097494459230781640628620899")
 TWO_PI = 2 * PI
 DROP_BOUND = Decimal(255) * PI / Decimal(2**32)
 
@@ -60,7 +78,7 @@ def judge(angle: float, tol: float, nds):
     if err < 0:
         err += TWO_PI
     err = min(err, TWO_PI - err)
-    allowed = Decimal(tol) + Decimal(math.ulp(angle)) + Decimal("1e-14")
+    allowed = Decimal(tol) + Decimal("1e-14")      # the float IS the angle: no allowance for its own rounding
     if err <= allowed:
         return True, "", None
     key = None
@@ -112,8 +130,9 @@ def _angles(ctx, n_random):
     for k in (1, 2, 3, 10, 1000):
         for eps in (0.0, 1e-16, 1e-12, 1e-9, 1e-7, 1e-5, 1e-4, 1e-3):
             out += [2 * pi * k + eps, 2 * pi * k - eps, -2 * pi * k + eps, -2 * pi * k - eps]
-    for e in (6, 9, 12, 15):
+    for e in (2, 3, 6, 9, 12, 15, 22, 40, 100, 300):
         out += [10.0**e, -(10.0**e), 1.2345678 * 10.0**e]
+    out += [1.7976931348623157e308, -1.7976931348623157e308, 63.9, 64.0, 64.1, -64.1, 2.0**20, 2.0**53, 2.0**53 + 2]
     out += [math.nextafter(2 * pi, 0), math.nextafter(2 * pi, 7), math.nextafter(pi, 0), math.nextafter(pi, 4),
             math.nextafter(0.0, 1), 5e-324, 2.2250738585072014e-308]
     for _ in range(n_random):
@@ -121,7 +140,7 @@ def _angles(ctx, n_random):
         if r < 0.5:
             out.append(rng.uniform(-4 * pi, 4 * pi))
         elif r < 0.8:
-            out.append(rng.choice([-1, 1]) * 10 ** rng.uniform(-12, 7))
+            out.append(rng.choice([-1, 1]) * 10 ** rng.uniform(-12, rng.choice([7, 7, 18, 300])))
         else:
             out.append(rng.randrange(-2**14, 2**14) * pi / 2 ** rng.randrange(0, 20) + rng.choice([0, 1e-10, -1e-10, 1e-6]))
     return out
